@@ -2,6 +2,7 @@ import Lean.Data.Json
 import Placement.Model.Handlers
 import Placement.Model.Txn
 import Placement.Model.Sync
+import Placement.Model.Fault
 /-
   Line-protocol driver of the executable model (unverified glue, exercised by the correspondence
   check): one JSON object per input line, one JSON object per output line.
@@ -370,6 +371,36 @@ def handleCore (j : Json) : M Json := do
     return Json.mkObj [
       ("rcs", Json.arr ((st.db.rcs.filter (·.1 < 10000)).map (fun p => Json.arr #[st.tbl.name p.2, p.1])).toArray),
       ("traits", Json.arr ((st.db.traits.filter (fun t => !isCustom t)).map (fun t => Json.str (st.tbl.name t))).toArray)]
+  | .ok "fault_put" =>
+    -- PUT /allocations/{c} with one fault at statement `k` of `_set_allocations` (first attempt):
+    -- consumer handling as in the handler, then `mainTxnWithFault` (Model/Fault.lean)
+    let op ← parseOp (← fld j "op")
+    let k ← nat j "k"
+    let kindS ← str j "kind"
+    let kind : Fault.Kind := match kindS with
+      | "deadlock" => .deadlock false
+      | "deadlock_rb" => .deadlock true
+      | _ => .other
+    let st ← get
+    match op with
+    | .allocPut mv c =>
+      match ensureConsumer st.cfg st.db mv c with
+      | (db1, .error r) =>
+        set { st with db := db1 }
+        return Json.mkObj [("early", respJson r)]
+      | (db1, .ok (cons, created, attr)) =>
+        match allocObjects db1 cons c with
+        | .error r =>
+          set { st with db := (if created then deleteConsumerRows db1 [cons.id] else db1) }
+          return Json.mkObj [("early", respJson r)]
+        | .ok objs =>
+          let res := mainTxnWithFault db1 cons attr objs (some (k, kind))
+          let ok := res.error.isNone && !res.faulted
+          let dbf := if ok then res.state.db else (if created then deleteConsumerRows db1 [cons.id] else db1)
+          set { st with db := dbf }
+          return Json.mkObj [("ok", ok), ("faulted", res.faulted),
+            ("statements", (setAllocStmts (R := Float) objs).length)]
+    | _ => throw "fault_put: not an alloc_put"
   | .ok "prefixw" =>
     let op ← parseOp (← fld j "op")
     let n ← nat j "j"
